@@ -200,6 +200,9 @@ def make_dep5(rng, clean=False):
                 paras.append("Files: " + " ".join(pats2) + "\n" + body)
     head = HEADER
     if rng.random() < 0.3:
+        # the header paragraph may carry fields of its own; the tool reads Files paragraphs only, before and after
+        head += "Copyright: 1990 Header Holder\nLicense: ISC\n"
+    if rng.random() < 0.3:
         head += "Disclaimer: not part of Debian\n"
     if rng.random() < 0.3:
         head += "Comment: header comment\n"
@@ -231,10 +234,24 @@ def run_tree(case, ctx, res):
                 p.write_text("# SPDX-FileCopyrightText: 2001 In File\n# SPDX-License-Identifier: 0BSD\ncontent\n")
             else:
                 p.write_text("content\n")
-        (root / ".reuse").mkdir()
         clean = case["k"] % 10 < 7
         text = make_dep5(rng, clean)
-        (root / ".reuse" / "dep5").write_text(text)
+        # the file, or the directory it is in, may be a link to something shared that lives outside the project
+        linked = rng.choice([None] * 8 + ["file", "dir"])
+        shared = root.parent / f"c17-{case['k']}-shared"
+        if linked:
+            (shared / "common").mkdir(parents=True)
+        if linked == "dir":
+            (shared / "common" / "dep5").write_text(text)
+            os.symlink(str(shared / "common"), root / ".reuse")
+        else:
+            (root / ".reuse").mkdir()
+            if linked == "file":
+                (shared / "common" / "dep5-shared").write_text(text)
+                os.symlink(str(shared / "common" / "dep5-shared"), root / ".reuse" / "dep5")
+            else:
+                (root / ".reuse" / "dep5").write_text(text)
+        shared_before = sorted(os.listdir(shared / "common")) if linked else None
         r1 = run_cli(["--no-multiprocessing", "--root", str(root), "lint", "--json"], cwd=str(root))
         if r1.escaped or r1.exit_code == 2:
             res.cell("dep5-rejected-before")
@@ -248,9 +265,17 @@ def run_tree(case, ctx, res):
         if rc.escaped or rc.exit_code != 0:
             res.violation("convert-failed", f"convert-dep5 exit {rc.exit_code} {rc.exc_type} on a dep5 that lint accepts", dep5=text, tb=rc.exc_tb, **rc.brief())
             return
-        if (root / ".reuse" / "dep5").exists() or not (root / "REUSE.toml").exists():
-            res.violation("conversion-incomplete", "after convert-dep5: dep5 still there or REUSE.toml missing")
+        if os.path.lexists(root / ".reuse" / "dep5") or not (root / "REUSE.toml").exists():
+            res.violation("conversion-incomplete", f"after convert-dep5: dep5 still there or REUSE.toml missing (dep5 linked: {linked})")
             return
+        if linked:
+            res.cell("dep5-linked:" + linked)
+            now = sorted(os.listdir(shared / "common"))
+            want = shared_before if linked == "file" else [x for x in shared_before if x != "dep5"]
+            if now != want or os.path.exists(shared / "REUSE.toml"):
+                res.violation("conversion-touches-link-target", f"dep5 reached through a link ({linked}): the directory it lives in went from {shared_before} "
+                              f"to {now}; REUSE.toml outside the project: {os.path.exists(shared / 'REUSE.toml')}")
+                return
         r2 = run_cli(["--no-multiprocessing", "--root", str(root), "lint", "--json"], cwd=str(root))
         if r2.escaped or r2.exit_code == 2:
             res.violation("converted-toml-rejected", f"lint rejects the generated REUSE.toml: {(r2.stderr or r2.stdout)[-300:]}", dep5=text,
@@ -280,6 +305,7 @@ def run_tree(case, ctx, res):
         res.cell("tree-equal" + ("-clean" if clean else ""))
     finally:
         shutil.rmtree(root, ignore_errors=True)
+        shutil.rmtree(root.parent / f"c17-{case['k']}-shared", ignore_errors=True)
 
 
 def run_order(case, ctx, res):
